@@ -281,7 +281,7 @@ var C15 = &sim.Scenario{
 	Components: components,
 	Runs: func(th bool) int {
 		if th {
-			return 400000
+			return 1500000
 		}
 		return 6000
 	},
